@@ -155,9 +155,12 @@ Theorem enc_in_total : forall (json_enc : HWCState -> list Z) (nc_print : list Z
     (ms : list InboundMessage),
   Forall wire_reachable ms -> exists ls, enc_in json_enc nc_print ms = Ok ls.
 Proof.
-  induction ms as [|m r IH]; intros H; cbn [enc_in]; [eauto|].
-  inversion H as [|? ? Hm Hr]; subst.
-  destruct (enc_in_msg_ok json_enc nc_print m Hm) as [a ->]. destruct (IH Hr) as [b ->]. cbn. eauto.
+  intros je ncp ms H. unfold enc_in.
+  assert (R : exists ls, enc_in_raw je ncp ms = Ok ls).
+  { induction ms as [|m r IH]; cbn [enc_in_raw]; [eauto|].
+    inversion H as [|? ? Hm Hr]; subst.
+    destruct (enc_in_msg_ok je ncp m Hm) as [a ->]. destruct (IH Hr) as [b ->]. cbn. eauto. }
+  destruct R as [ls ->]. cbn. eauto.
 Qed.
 
 (* the hypothesis of enc_in_total is necessary: a nil element is a panic site *)
